@@ -18,30 +18,51 @@ PARTIAL = [
     "(argument passing, const callee, distinct bound objects, no mutable statics/members); the real accesses are covered "
     "only dynamically by the ThreadSanitizer build of the harness (thorough tier: tools/props/C08.py custom step)",
     "determinism of the sequential code of every stage (pure function of circuit + parameters + seed) is not proved in "
-    "Lean; it is supported by the absence of mutable static storage / mutable members (async_facts, nm + AST scan of "
-    "/repo/src; third-party tag objects of std:: and Eigen:: are listed in evidence, not analysed) and by the bitwise "
-    "comparisons of the harness (repeat, rebuilt circuit, permuted order, other seed in between, observing callback, "
-    "1-core / all-core affinity)",
+    "Lean; it is supported (a) by the absence of mutable static storage / mutable members (async_facts: nm over every object "
+    "of the library - function-local statics are listed as `<file>: <function>()::<name>` - + `mutable` scan of /repo/src; "
+    "third-party tag objects of std:: and Eigen:: are listed in evidence, not analysed), (b) by the bitwise comparisons of the "
+    "harness: repeat, rebuilt circuit, observing callback (and the sequence of intermediate placements shown to it), permuted "
+    "order in one process, other seed in between, 1-core / all-core affinity, forced completion orders, and stream `o`: "
+    "2-3 jobs with distinct non-zero noise / seeds / efforts / knobs, each alone in a fresh forked process and in 2-4 orders "
+    "in further fresh processes, per-job results equal, (c) for indeterminate values: every run is preceded by overwriting "
+    "the dead stack, the cached stacks of helper threads and freed heap blocks with changing patterns (plus forked runs with "
+    "0x00 / 0xFF / 0xA5 / random patterns, where a crash is a difference too); the sanitizer-free build repeats all "
+    "comparisons with glibc's M_PERTURB switched per run (ASan's allocator would hide heap reads); 40 (thorough: 150) small "
+    "cases run under valgrind/memcheck, any error is a failure.  All of this is sampling, bounded by the generators",
+    "member-initialisation order / definite initialisation is not analysed statically (no translator facts about it); a read "
+    "of an indeterminate member is found only when it changes a compared result under the perturbations or when one of the "
+    "valgrind cases executes it.  MemorySanitizer is not used (no instrumented libstdc++ on this machine)",
+    "parameters: the harness draws from the box accepted by ColoquinteParameters::check() restricted to maxNbSteps <= 14, CG "
+    "tolerance >= 1e-6, approximation / cutoff distances in [0.1, 1000] (nbInitialSteps 0..4, nbStepsBeforeRoughLegalization "
+    "1..3, all four net models, all six rough-legalization cost models, noise 0 / default / 1e-4..2, measured in the "
+    "distribution); circuits have at most 30 cells; a case the library stops with an assertion is skipped and counted "
+    "(d:skipped_child_abort; stream o draws the job again) - those inputs are C07's subject",
     "std::async(std::launch::async) is assumed to launch, run and join as specified (DESIGN section 5)",
-    "forced completion orders need hook H1 (fixes/hook-h1-solve-start.diff); until it is applied those runs are skipped "
-    "and counted (forced_order_skipped_no_hook_H1); the delay forces the order with overwhelming probability, not certainty",
+    "forced completion orders use hook H1 (committed in /repo; without it those runs are skipped and counted as "
+    "forced_order_skipped_no_hook_H1); the delay forces the order with overwhelming probability, not certainty",
 ]
 ASSUMPTIONS = [
     "a task's run is modelled as `read everything, then write everything` (two atomic steps); finer interleavings of "
     "reads/writes inside one task do not add conflicts because conflicts are judged on the union of its accesses",
     "a non-by-value argument (std::ref, pointer) is treated as possibly written by the callee; every mutable static or "
     "`mutable` member is treated as read and written by both tasks (conservative)",
+    "a process forked from the harness parent (which never calls the library) counts as a fresh process for the library's "
+    "static storage",
 ]
 LEVEL_TEXT = ("Lean 4 theorems over the two-task protocol of GlobalPlacer::runLB whose read/write sets are derived from "
               "facts regenerated from the clang AST and the library's symbol tables on every run: no two steps unordered "
               "by happens-before conflict; every linearisation consistent with happens-before yields the same results "
               "and final state for every meaning of the computations (exhaustive walk by `decide`, transferred to "
               "arbitrary value domains, lifted by induction over the number of lower-bound steps).  The real code is "
-              "compared bit for bit across repeated runs, copies, permuted run orders, callbacks, core affinities and "
-              "(with hook H1) forced completion orders; ThreadSanitizer run in the thorough tier")
+              "compared bit for bit across repeated runs, copies, permuted run orders in one process and across fresh "
+              "processes (jobs with different parameter sets in different orders), callbacks, core affinities and forced "
+              "completion orders (hook H1), with dead stack / heap contents perturbed before every run; sanitizer-free "
+              "re-run with M_PERTURB and a valgrind sample in both tiers; ThreadSanitizer run in the thorough tier")
 LEVEL_NOTE = ("Trusted: Lean kernel; tools/gen/Async.py (AST + nm) and the read/write model derived from it; std::async "
-              "semantics; the real memory accesses of the solves are checked by TSan only.")
-TECHNIQUE = "Lean 4 proof (exhaustive protocol exploration + homomorphism to arbitrary value domains) + translated facts + bitwise differential runs + TSan"
+              "semantics; the real memory accesses of the solves are checked by TSan only; sequential determinism and "
+              "initialisation are checked by differential runs / valgrind only.")
+TECHNIQUE = ("Lean 4 proof (exhaustive protocol exploration + homomorphism to arbitrary value domains) + translated facts + "
+             "bitwise differential runs (history / order / dead-memory perturbation) + valgrind + TSan")
 
 TSAN_ENV = {"TSAN_OPTIONS": "halt_on_error=0:exitcode=66:second_deadlock_stack=1"}
 
